@@ -657,8 +657,101 @@ def working_directory_backslashes_and_own_formats_stream(ctx, res):
             res.violate("C18:own-format", "a document in a user-defined format whose instances keep parser state did not load like the merged tree (one formatter instance parsed "
                         "more than one document?)", dict(case, got=got, want=want))
 
+def lexical_paths_stream(ctx, res):
+    """include paths resolve against the configured start directory LEXICALLY (join, normalise): (a) `profiles/../inc.json` where
+    `<startdir>/profiles` is a symbolic link to a directory with another parent names `<startdir>/inc.json`, not the file next to
+    the link's target; (b) a start directory that consists of separators only (`/`, `//`) is still a start directory: a relative
+    include path resolves against the root, whatever the working directory is, and a file of the same relative name below the
+    working directory is not merged; (c) an include key that is present but EMPTY names no existing file — the load fails — at the
+    root and in a nested scope (`None` and a missing key mean: no include)"""
+    import cincoconfig as cc
+    tmp = os.path.realpath(ctx.tmpdir())
+    base = os.path.join(tmp, "lexical")
+    conf, shared, elsewhere, cwd_dir = (os.path.join(base, n) for n in ("conf", "shared", "elsewhere", "cwd"))
+    for d in (conf, os.path.join(shared, "profiles-real"), elsewhere, cwd_dir):
+        os.makedirs(d, exist_ok=True)
+    link = os.path.join(conf, "profiles")
+    if not os.path.islink(link):
+        os.symlink(os.path.join(shared, "profiles-real"), link)
+    with open(os.path.join(conf, "inc.json"), "w") as fp:
+        json.dump({"db": {"port": 2, "host": "x"}}, fp)
+    with open(os.path.join(shared, "inc.json"), "w") as fp:
+        json.dump({"db": {"port": 99, "host": "elsewhere"}}, fp)
+    with open(os.path.join(shared, "profiles-real", "p.json"), "w") as fp:
+        json.dump({"db": {"port": 7, "host": "profile"}}, fp)
+
+    def schema(startdir):
+        s = cc.Schema()
+        s.include = cc.IncludeField(startdir=startdir)
+        s.mode = cc.StringField(default="m")
+        s.db.port = cc.IntField(default=1)
+        s.db.host = cc.StringField(default="h")
+        s.app.include = cc.IncludeField(startdir=startdir)
+        s.app.db.port = cc.IntField(default=1)
+        s.app.db.host = cc.StringField(default="h")
+        return s
+    # (a)
+    for rel, want in (("profiles/../inc.json", (2, "x")), ("profiles/p.json", (7, "profile")), ("./profiles/./../inc.json", (2, "x")), ("inc.json", (2, "x")),
+                      ("../shared/inc.json", (99, "elsewhere")), ("profiles/../missing.json", None)):
+        for scope in ("root", "nested"):
+            cfg = schema(conf)()
+            doc = {"include": rel} if scope == "root" else {"app": {"include": rel}}
+            case = {"stream": "lexical-paths", "include": rel, "scope": scope}
+            res.case(stable(case), kind="lexical-paths")
+            try:
+                cfg.loads(json.dumps(doc).encode(), format="json")
+                got = (cfg.db.port, cfg.db.host) if scope == "root" else (cfg.app.db.port, cfg.app.db.host)
+            except cc.ValidationError:
+                got = None
+            except Exception as e:  # noqa
+                got = "raised %s" % type(e).__name__
+            if got != want:
+                res.violate("C18:startdir", "an include path with `..` through a symbolic link below the start directory did not name the lexically resolved file",
+                            dict(case, got=repr(got), want=repr(want)))
+    # (b)
+    rel_conf = os.path.join(conf, "inc.json").lstrip("/")
+    os.makedirs(os.path.dirname(os.path.join(cwd_dir, rel_conf)), exist_ok=True)
+    with open(os.path.join(cwd_dir, rel_conf), "w") as fp:
+        json.dump({"db": {"port": 99, "host": "from-cwd"}}, fp)
+    cwd0 = os.getcwd()
+    try:
+        os.chdir(cwd_dir)
+        for sd in ("/", "//", conf + "/", conf + "//"):
+            rel = rel_conf if sd.strip("/") == "" else "inc.json"
+            for scope in ("root", "nested"):
+                cfg = schema(sd)()
+                doc = {"include": rel} if scope == "root" else {"app": {"include": rel}}
+                case = {"stream": "separator-startdir", "startdir": sd if sd.strip("/") == "" else "<conf>" + sd[len(conf):], "scope": scope}
+                res.case(stable(case), kind="separator-startdir")
+                try:
+                    cfg.loads(json.dumps(doc).encode(), format="json")
+                    got = (cfg.db.port, cfg.db.host) if scope == "root" else (cfg.app.db.port, cfg.app.db.host)
+                except Exception as e:  # noqa
+                    got = "raised %s: %s" % (type(e).__name__, str(e)[:60])
+                if got != (2, "x"):
+                    res.violate("C18:startdir", "a start directory written with trailing separators (or consisting of separators only) was not the directory the include path "
+                                "resolved against", dict(case, got=repr(got)))
+    finally:
+        os.chdir(cwd0)
+    # (c)
+    for value, fails in (("", True), (None, False), ("inc.json", False)):
+        for scope in ("root", "nested"):
+            cfg = schema(conf)()
+            doc = {"include": value, "mode": "x"} if scope == "root" else {"mode": "x", "app": {"include": value, "db": {"port": 5}}}
+            case = {"stream": "empty-include-path", "include": repr(value), "scope": scope}
+            res.case(stable(case), kind="empty-include-path")
+            try:
+                cfg.loads(json.dumps(doc).encode(), format="json")
+                failed = False
+            except Exception:  # noqa
+                failed = True
+            if failed != fails:
+                res.violate("C18:missing-file", "an include key that is present but empty names no existing file: the load has to fail (and None / a path that exists must not)",
+                            dict(case, load_failed=failed))
+
 def run(ctx):
     res = Result()
+    guard(res, "C18", lexical_paths_stream, ctx, res)
     guard(res, "C18", working_directory_backslashes_and_own_formats_stream, ctx, res)
     guard(res, "C18", stream_a, ctx, res, ctx.n(2000, 60000))
     guard(res, "C18", stream_b, ctx, res, ctx.n(150, 3000))
